@@ -401,6 +401,8 @@ def c06(w):
                                       "extend(%s): new doer %s was entered and exited inside the call though it did not finish in enter" % (c["args"], a)))
                     # this membership of the doer ends at its next exit (it may be removed and added again later)
                     end = next((i for i in range(t1, len(tr)) if tr[i][0] == a and tr[i][1] == "exit"), len(tr))
+                    if any(e[0] == a and e[1] == "exit" for e in win):
+                        end = t1       # it finished inside its enter: this life is over (what follows belongs to a later one)
                     rec = [e for e in tr[t1:end] if e[0] == a and e[1] == "recur"]
                     # (a doer put into another scheduler that has its pass later in the same cycle starts there: the statement
                     #  speaks of the scheduler that is in the middle of its pass)
@@ -428,8 +430,10 @@ def c06(w):
                           "remove(%s): doers %s -> %s, expected %s" % (c["args"], cur, c["after"], want)))
             for a in gone:
                 selfish = (a == c["by"]) or _is_anc(w, a, c["by"])
-                entered = any(e[0] == a and e[1] == "enter" for e in tr[:t0])
-                exited = any(e[0] == a and e[1] == "exit" for e in tr[:t0])
+                n_in = sum(1 for e in tr[:t0] if e[0] == a and e[1] == "enter")
+                n_out = sum(1 for e in tr[:t0] if e[0] == a and e[1] == "exit")
+                entered = n_in > 0
+                exited = n_out >= n_in      # its latest life is over (a doer may have several)
                 mine = [e[1] for e in win if e[0] == a and e[1] != "exit_begin"]
                 readd = [x["t0"] for x in w.calls if x["op"] == "extend" and x["t0"] >= t1 and x["owner"] == o
                          and (a in x["args"])]
